@@ -27,7 +27,7 @@ struct Env {
 enum Ctr {
   C_ALLOC = 0, C_GUARD_AFTER, C_GUARD_BEFORE, C_MID, C_HOSTILE, C_FILL_ZERO, C_FILL_FF, C_FILL_QUOTE,
   C_FILL_BSLASH, C_FILL_NOISE, C_FILL_FAKENODE, C_REALLOC_MOVE, C_REALLOC_INPLACE, C_FREE_POISON,
-  C_FREE_PROTECT, C_ALLOC_FAIL, C_CALLER_RELEASE, C_BIG, C_REUSE_LIFO, NCTR
+  C_FREE_PROTECT, C_ALLOC_FAIL, C_CALLER_RELEASE, C_BIG, C_REUSE_LIFO, C_DENSE, NCTR
 };
 extern const char* const kCtrNames[NCTR];
 extern uint64_t g_ctr[NCTR];
